@@ -19,9 +19,16 @@ for D in /verif/holdout/C*; do
   go build ./... >/dev/null 2>&1; build_st=$?
   mut_out=$(eval "timeout 900 $cmd" 2>&1); mut_st=$?
   rm -f $path
-  suite_out=$(go test -vet=off -count=1 ./x/... ./app/... 2>&1); suite_st=$?
+  if [ -n "$SKIP_SUITE" ]; then
+    # third round: the whole suite with the change was run by the author (log kept in the README); here
+    # only the touched module's packages are re-run
+    mod=$(grep -m1 -oE '^\+\+\+ b/x/[a-z]+' $D/patch.diff | sed 's#+++ b/##')
+    suite_out=$(go test -vet=off -count=1 ./$mod/... 2>&1); suite_st=$?
+  else
+    suite_out=$(go test -vet=off -count=1 ./x/... ./app/... 2>&1); suite_st=$?
+  fi
   suite_fail=$(echo "$suite_out" | grep -E '^(FAIL|--- FAIL|panic)' | head -5 | tr '\n' ';' | tr '"' "'")
-  if [ $suite_st -ne 0 ]; then  # one retry: CLI network tests collide on ports under load
+  if [ $suite_st -ne 0 ] && [ -z "$SKIP_SUITE" ]; then  # one retry: CLI network tests collide on ports under load
     suite_out=$(go test -vet=off -count=1 ./x/... ./app/... 2>&1); suite_st=$?
     suite_fail=$(echo "$suite_out" | grep -E '^(FAIL|--- FAIL|panic)' | head -5 | tr '\n' ';' | tr '"' "'")
   fi
@@ -29,7 +36,7 @@ for D in /verif/holdout/C*; do
   if [ $clean_st -eq 0 ] && [ $mut_st -ne 0 ] && [ $build_st -eq 0 ] && [ $suite_st -eq 0 ]; then ok=true; fi
   mut_tail=$(echo "$mut_out" | grep -E 'Error:|expected|actual|FAIL|panic' | head -6 | tr '\n' ';' | tr '"' "'" | tr '\t' ' ' | cut -c1-600)
   cat > $D/verified.json <<J
-{"ok": $ok, "demo_path": "$path", "demo_cmd": "$(echo $cmd | tr '"' "'")", "demo_on_clean_exit": $clean_st, "demo_with_change_exit": $mut_st, "build_exit": $build_st, "suite_with_change_exit": $suite_st, "suite_failures": "$suite_fail", "demo_failure_excerpt": "$mut_tail"}
+{"ok": $ok, "demo_path": "$path", "demo_cmd": "$(echo $cmd | tr '"' "'")", "demo_on_clean_exit": $clean_st, "demo_with_change_exit": $mut_st, "build_exit": $build_st, "suite_with_change_exit": $suite_st, "suite_scope": "${SKIP_SUITE:+touched module only (whole suite run by the author)}", "suite_failures": "$suite_fail", "demo_failure_excerpt": "$mut_tail"}
 J
   echo "$(basename $D) ok=$ok"
 done
